@@ -46,7 +46,7 @@ def type_width(t):
 
 
 class Sym:
-    def __init__(self, prog, fn, region=None, inline=True, depth=0, stop=()):
+    def __init__(self, prog, fn, region=None, inline=True, depth=0, stop=(), single_only=False):
         self.prog, self.fn = prog, fn
         self.region = region if region is not None else fn.body
         self.inline = inline
@@ -54,6 +54,7 @@ class Sym:
         self._assign = None
         self.subst = {}
         self.stop = set(stop)
+        self.single_only = single_only
 
     def assignments(self):
         """decl id -> list of (op, rhs node) inside the region."""
@@ -141,7 +142,7 @@ class Sym:
                 return list(self.subst[d])
             if n.get('dk') in ('local',) and d not in seen and n['n'] not in self.stop:
                 asg = self.assignments().get(d)
-                if asg:
+                if asg and not (self.single_only and len(asg) != 1):
                     return self._resolve(n, d, asg, seen + (d,))
             t = self.fn.type(n) or ''
             w = type_width(t)
